@@ -50,6 +50,10 @@ pub enum Reply {
     UnsolThenFaithful { seq: u8, data: bool, con: bool },
     /// control echo altered (C16)
     Echo(EchoMutation),
+    /// file transfer: block number of the returned block changed by this much
+    FileBlock(i8),
+    /// file transfer: status code of an open / close response
+    FileStatus(u8),
     /// faithful, with CON set on the (final) fragment
     WithCon,
     /// cut the connection instead of answering
@@ -83,6 +87,10 @@ pub enum UserKind {
     LinkStatus,
     /// a request that expects an empty response (function code)
     Empty(u8),
+    /// WRITE of n analog dead-bands
+    DeadBands(u8),
+    /// read_file of a file of `blocks` blocks of `block_size` octets; the FileReader aborts in opened (0) or at block n-1
+    FileRead { blocks: u8, block_size: u8, abort_at: Option<u8> },
 }
 
 #[derive(Clone, Debug, Serialize, Deserialize, PartialEq)]
@@ -111,6 +119,12 @@ pub enum MOp {
     Sleep(u64),
     Cut { eof: bool },
     NetPlan(Vec<u8>),
+    /// whether the outstation answers REQUEST_LINK_STATUS frames
+    AnswerLinkStatus { assoc: usize, on: bool },
+    /// the master task is dropped (runtime shutdown): every pending promise must still resolve
+    KillMaster,
+    /// a channel message unrelated to any request (set_decode_level) - activity while tasks wait
+    Poke,
     /// outstation processing delay reported in DELAY_MEASURE and honoured by holding the reply
     ProcessingDelay { assoc: usize, ms: u16, honest: bool },
 }
@@ -147,7 +161,8 @@ pub struct SmastCase {
 #[derive(Clone, Debug)]
 pub enum PeerEv {
     /// application fragment received from the master
-    Rx { t: u64, order: u64, src: u16, dest: u16, bytes: Vec<u8>, session: u32 },
+    /// `worder` = order number at which the master wrote the (last octets of the) fragment
+    Rx { t: u64, order: u64, worder: u64, src: u16, dest: u16, bytes: Vec<u8>, session: u32 },
     /// application fragment sent to the master; `valid` = it is the correct answer a compliant master must accept
     Tx { t: u64, order: u64, src: u16, bytes: Vec<u8>, kind: String, valid: bool, answers: Option<u64>, session: u32 },
     LinkRx { t: u64, order: u64, frame: RefFrame },
@@ -174,6 +189,9 @@ pub struct OutstationSim {
     pub processing_delay: u16,
     pub honest_delay: bool,
     pub answer_link_status: bool,
+    /// open file: (handle, blocks, block size)
+    pub file: Option<(u32, u32, u32)>,
+    pub file_handle: u32,
     /// the time written by the master (WRITE g50v1 / g50v3), with virtual time of arrival
     pub time_written: Vec<(u64, u64, u8)>,
     pub recorded_time_at: Option<u64>,
@@ -196,6 +214,8 @@ impl OutstationSim {
             processing_delay: 0,
             honest_delay: true,
             answer_link_status: true,
+            file: None,
+            file_handle: 0x1000,
             time_written: Vec::new(),
             recorded_time_at: None,
         }
@@ -394,13 +414,14 @@ fn mutate_echo(objects: &[u8], m: &EchoMutation) -> Vec<u8> {
 }
 
 /// the scripted outstation reacts to one application fragment from the master
-fn on_fragment(p: &mut PeerShared, src: u16, dest: u16, bytes: &[u8]) {
+fn on_fragment(p: &mut PeerShared, src: u16, dest: u16, bytes: &[u8], worder: u64) {
     let (t, order) = order_now();
     let session = p.session;
     p.rx_count += 1;
     p.log(PeerEv::Rx {
         t,
         order,
+        worder,
         src,
         dest,
         bytes: bytes.to_vec(),
@@ -484,7 +505,7 @@ fn on_fragment(p: &mut PeerShared, src: u16, dest: u16, bytes: &[u8]) {
     let mut no_reply = false;
     let mut hold_ms: u64 = 0;
     match func {
-        refapp::FUNC_READ => {
+        refapp::FUNC_READ if !(bytes.len() >= 16 && bytes[2] == 70 && bytes[3] == 5) => {
             let shape = p.outstations[oi].read_shape.clone();
             let n = shape.len().max(1);
             for (k, count) in shape.iter().enumerate() {
@@ -534,6 +555,55 @@ fn on_fragment(p: &mut PeerShared, src: u16, dest: u16, bytes: &[u8]) {
         refapp::FUNC_RECORD_CURRENT_TIME => {
             p.outstations[oi].recorded_time_at = Some(t);
             fragments.push(response_bytes(Ctrl::request(seq), refapp::FUNC_RESPONSE, iin, &[]));
+        }
+        25 => {
+            // OPEN_FILE with g70v3: the name "f<blocks>x<size>" says what the file looks like
+            let obj = bytes.get(8..).unwrap_or(&[]);
+            let name = obj.get(26..).map(|n| String::from_utf8_lossy(n).to_string()).unwrap_or_default();
+            let mut it = name.trim_start_matches('f').split('x');
+            let blocks: u32 = it.next().and_then(|x| x.parse().ok()).unwrap_or(1);
+            let bsize: u32 = it.next().and_then(|x| x.parse().ok()).unwrap_or(1);
+            let o = &mut p.outstations[oi];
+            o.file_handle += 1;
+            o.file = Some((o.file_handle, blocks.max(1), bsize.max(1)));
+            let mut body = Vec::new();
+            body.extend_from_slice(&o.file_handle.to_le_bytes());
+            body.extend_from_slice(&(blocks * bsize).to_le_bytes());
+            body.extend_from_slice(&1024u16.to_le_bytes());
+            body.extend_from_slice(&obj.get(24..26).map(|x| [x[0], x[1]]).unwrap_or([0, 0]));
+            body.push(0);
+            fragments.push(response_bytes(Ctrl::request(seq), refapp::FUNC_RESPONSE, iin, &free_format(70, 4, &body)));
+        }
+        26 => {
+            // CLOSE_FILE with g70v4
+            let obj = bytes.get(8..).unwrap_or(&[]);
+            let handle = obj.get(0..4).map(|x| u32::from_le_bytes([x[0], x[1], x[2], x[3]])).unwrap_or(0);
+            p.outstations[oi].file = None;
+            let mut body = Vec::new();
+            body.extend_from_slice(&handle.to_le_bytes());
+            body.extend_from_slice(&0u32.to_le_bytes());
+            body.extend_from_slice(&0u16.to_le_bytes());
+            body.extend_from_slice(&obj.get(10..12).map(|x| [x[0], x[1]]).unwrap_or([0, 0]));
+            body.push(0);
+            fragments.push(response_bytes(Ctrl::request(seq), refapp::FUNC_RESPONSE, iin, &free_format(70, 4, &body)));
+        }
+        refapp::FUNC_READ if bytes.len() >= 16 && bytes[2] == 70 && bytes[3] == 5 => {
+            // READ of the next file block
+            let obj = &bytes[8..];
+            let handle = u32::from_le_bytes([obj[0], obj[1], obj[2], obj[3]]);
+            let block = u32::from_le_bytes([obj[4], obj[5], obj[6], obj[7]]) & 0x7FFF_FFFF;
+            let (blocks, bsize) = match p.outstations[oi].file {
+                Some((h, b, s)) if h == handle => (b, s),
+                _ => (1, 1),
+            };
+            let mut body = Vec::new();
+            body.extend_from_slice(&handle.to_le_bytes());
+            let last = block + 1 >= blocks;
+            body.extend_from_slice(&(block | if last { 0x8000_0000 } else { 0 }).to_le_bytes());
+            for i in 0..bsize as usize {
+                body.push(crate::verif::nodes::master::file_octet(block, i));
+            }
+            fragments.push(response_bytes(Ctrl::request(seq), refapp::FUNC_RESPONSE, iin, &free_format(70, 5, &body)));
         }
         refapp::FUNC_WRITE => {
             // restart-bit clear and time writes are interpreted, everything else just acknowledged
@@ -676,6 +746,30 @@ fn on_fragment(p: &mut PeerShared, src: u16, dest: u16, bytes: &[u8]) {
                 p.transmit(addr, &f, "objects-replaced", false, answers, 0);
             }
         }
+        Reply::FileBlock(d) => {
+            if let Some(f) = fragments.first() {
+                let mut f = f.clone();
+                let is_block = f.len() >= 18 && f[4] == 70 && f[5] == 5;
+                if is_block {
+                    let n = u32::from_le_bytes([f[14], f[15], f[16], f[17]]);
+                    let m = (n & 0x8000_0000) | ((n & 0x7FFF_FFFF).wrapping_add(d as i32 as u32) & 0x7FFF_FFFF);
+                    f[14..18].copy_from_slice(&m.to_le_bytes());
+                }
+                let valid = !is_block || d == 0;
+                p.transmit(addr, &f, "file-block-number", valid, answers, 0);
+            }
+        }
+        Reply::FileStatus(code) => {
+            if let Some(f) = fragments.first() {
+                let mut f = f.clone();
+                let is_status = f.len() >= 23 && f[4] == 70 && f[5] == 4;
+                if is_status {
+                    f[22] = code;
+                }
+                let valid = !is_status || code == 0;
+                p.transmit(addr, &f, "file-status", valid, answers, 0);
+            }
+        }
         Reply::Dup => {
             send_faithful(p, 0, "faithful");
             if let Some(f) = fragments.first() {
@@ -714,6 +808,14 @@ fn on_fragment(p: &mut PeerShared, src: u16, dest: u16, bytes: &[u8]) {
             p.cut_requested = Some(CloseKind::Reset);
         }
     }
+}
+
+/// one free-format object header (qualifier 0x5B, count 1, 16-bit size)
+fn free_format(group: u8, var: u8, body: &[u8]) -> Vec<u8> {
+    let mut v = vec![group, var, 0x5B, 1];
+    v.extend_from_slice(&(body.len() as u16).to_le_bytes());
+    v.extend_from_slice(body);
+    v
 }
 
 pub fn send_unsolicited(p: &mut PeerShared, oi: usize, seq: u8, data: bool, con: bool) {
@@ -827,7 +929,7 @@ pub async fn peer_task(peer: Peer, net: SimNetwork) {
                 }
             }
             for fr in frags {
-                on_fragment(&mut p, fr.src, fr.dest, &fr.bytes);
+                on_fragment(&mut p, fr.src, fr.dest, &fr.bytes, fr.order);
             }
             if let Some(kind) = p.cut_requested.take() {
                 io::chan_close(&to_client, kind);
@@ -851,6 +953,8 @@ pub struct MastRun {
     pub op_marks: Vec<(usize, u64, u64)>,
     pub net_attempts: Vec<(u64, ConnectPlan)>,
     pub end_ms: u64,
+    /// (user request id, association address, what was asked)
+    pub user_kinds: Vec<(u64, u16, UserKind)>,
 }
 
 fn classes_of(mask: u8) -> Classes {
@@ -925,6 +1029,22 @@ fn spawn_user(sim: &Sim, node: &MasterNode, id: u64, assoc: &AssociationHandle, 
                 Ok(()) => (true, "Ok".to_string()),
                 Err(e) => (false, format!("{:?}", e)),
             },
+            UserKind::FileRead { blocks, block_size, abort_at } => {
+                let reader = crate::verif::nodes::master::FReader { rec: rec.clone(), id, abort_at: abort_at.map(|x| x as u32) };
+                let name = format!("f{}x{}", blocks, block_size);
+                let config = crate::master::FileReadConfig { max_block_size: 1024, max_file_size: 10_000 };
+                match h.read_file(name, config, Box::new(reader), None).await {
+                    Ok(()) => (true, "Queued".to_string()),
+                    Err(e) => (false, format!("{:?}", e)),
+                }
+            }
+            UserKind::DeadBands(n) => {
+                let items: Vec<(u8, u16)> = (0..n.max(1)).map(|i| (i, 100 + i as u16)).collect();
+                match h.write_dead_bands(vec![crate::master::DeadBandHeader::group34_var1_u8(items)]).await {
+                    Ok(()) => (true, "Ok".to_string()),
+                    Err(e) => (false, format!("{:?}", e)),
+                }
+            }
             UserKind::Empty(fc) => {
                 let func = crate::app::FunctionCode::from(fc).unwrap_or(crate::app::FunctionCode::RecordCurrentTime);
                 match h.send_and_expect_empty_response(func, crate::master::Headers::new()).await {
@@ -957,6 +1077,7 @@ pub async fn drive(sim: &Sim, case: &SmastCase) -> MastRun {
     let mut polls: Vec<crate::master::PollHandle> = Vec::new();
     let mut op_marks = Vec::new();
     let mut next_user_id = 0u64;
+    let mut user_kinds: Vec<(u64, u16, UserKind)> = Vec::new();
 
     for (i, op) in case.script.iter().enumerate() {
         op_marks.push((i, sim.now_ms(), sim.core().next_order()));
@@ -967,6 +1088,7 @@ pub async fn drive(sim: &Sim, case: &SmastCase) -> MastRun {
                     let h = h.clone();
                     node.rec.lock().unwrap().push(MEv::Other { assoc: h.address().raw_value(), what: format!("user-request id={} {:?}", next_user_id, kind) });
                     spawn_user(sim, &node, next_user_id, &h, kind);
+                    user_kinds.push((next_user_id, h.address().raw_value(), kind.clone()));
                     next_user_id += 1;
                 }
             }
@@ -1090,6 +1212,33 @@ pub async fn drive(sim: &Sim, case: &SmastCase) -> MastRun {
                     sim.count("fault.cut");
                 }
             }
+            MOp::AnswerLinkStatus { assoc, on } => {
+                let mut p = peer.lock().unwrap();
+                let n = p.outstations.len().max(1);
+                if let Some(o) = p.outstations.get_mut(*assoc % n) {
+                    o.answer_link_status = *on;
+                }
+            }
+            MOp::KillMaster => {
+                sim.kill(node.task);
+                sim.count("fault.master_task_dropped");
+            }
+            MOp::Poke => {
+                let mut c = node.channel.clone();
+                let level = if case.cfg.decode_all {
+                    crate::decode::DecodeLevel::new(
+                        crate::decode::AppDecodeLevel::ObjectValues,
+                        crate::decode::TransportDecodeLevel::Payload,
+                        crate::decode::LinkDecodeLevel::Payload,
+                        crate::decode::PhysDecodeLevel::Data,
+                    )
+                } else {
+                    crate::decode::DecodeLevel::nothing()
+                };
+                sim.spawn("poke", async move {
+                    let _ = c.set_decode_level(level).await;
+                });
+            }
             MOp::NetPlan(plan) => {
                 for x in plan {
                     net.plan(match x % 3 {
@@ -1113,6 +1262,7 @@ pub async fn drive(sim: &Sim, case: &SmastCase) -> MastRun {
         op_marks,
         net_attempts: net.attempts(),
         end_ms,
+        user_kinds,
     };
     run
 }
